@@ -971,15 +971,29 @@ def _predicates(model, rep):
                          finder: PyFunc(lambda a, k, n: ("found", a, k)),
                          other: PyFunc(lambda a, k, n: ("other-kind", a,
                                                         k))})
+        class IndexArray:
+            """An integer index array given as a tag."""
+            skv_isarray = True
+            skv_types = ("numpy.ndarray",)
+
+            def skv_getattr(self, name):
+                if name == "dtype":
+                    class IntDtype:
+                        def skv_compare(self, op, other):
+                            return isinstance(op, ast.NotEq)
+                    return IntDtype()
+                raise Unsupported("index array." + name)
+
+        given = IndexArray()
         try:
             r = Interp(model, call_hook=hook).call(
-                fn, [{"a": "ARRAY", "b": test}], {}, self_obj=obj)
+                fn, [{"a": given, "b": test}], {}, self_obj=obj)
         except (Unsupported, Raised) as e:
             raise AnalysisError(f"Mesh.{meth}: {e}")
         tags = r[1].get(field) if isinstance(r, tuple) and \
             r[0] == "replaced" else None
         ok = (isinstance(tags, dict) and tags.get("old") == "OLD"
-              and tags.get("a") == "ARRAY"
+              and tags.get("a") is given
               and isinstance(tags.get("b"), tuple)
               and tags["b"][0] == "found" and tags["b"][1][0] is test
               and list(r[1]) == [field])
@@ -1094,6 +1108,34 @@ def _index_forms(model, rep):
             if isinstance(stored, ast.Call):
                 rep.ok(R4, cons, f"a non-callable value is stored through "
                                  f"{src(stored.func)}")
+                # ... and a tag given as a list or a tuple (of indices, or
+                # mask.tolist()) names the same subset as the array: the
+                # lookup by name returns the stored value, so the storing
+                # helper makes an array of whatever is not one (review R7
+                # of F138: FacetBasis(facets='a') raised IndexError for a
+                # tag given as (0, 1, 5))
+                hname = src(stored.func).rsplit(".", 1)[-1]
+                hf = mcls.find_method(hname)
+                cons2 = f"Mesh.{wname}:sequence-stored-as-array"
+                if hf is None:
+                    raise AnalysisError(f"Mesh.{hname} not found")
+                hpar = [a for a in hf.params() if a not in ("self", "cls")]
+                conv = any(isinstance(c, ast.Call) and src(c.func) in (
+                    "np.asarray", "np.asanyarray", "np.array",
+                    "np.atleast_1d") and c.args
+                    and src(c.args[0]) in hpar
+                    for c in ast.walk(hf.node))
+                if conv:
+                    rep.ok(R4, cons2, f"{hname} makes an array of a list "
+                                      f"or a tuple")
+                else:
+                    rep.fail(R4, hf.path, f"Mesh.{hname}", cons2,
+                             f"{hname} returns whatever is not an ndarray "
+                             f"as given: a tag given as the tuple (0, 1, 5) "
+                             f"is handed to the readers as a tuple "
+                             f"(FacetBasis(facets='a') raises IndexError), "
+                             f"one given as mask.tolist() is read as the "
+                             f"indices 0 and 1", hf.lineno)
             else:
                 rep.fail(R4, wf.path, f"Mesh.{wname}", cons,
                          f"a non-callable tag value is stored as given: a "
@@ -1236,6 +1278,42 @@ def _default_tags(model, rep):
                      f"MeshTri().refined(3).translated((1e5 / 3, 1e5 / 3))"
                      f".with_defaults() tags 75 facets 'left' instead of 8",
                      lam.lineno)
+    # the round-off floor of that tolerance is the round-off of the *named
+    # point*: taken from the largest coordinate of the whole mesh it exceeds
+    # the local cell size on a graded or long mesh and the tuple selects
+    # several vertices (review R7 of F139)
+    def resolve(x, seen=()):
+        names = set()
+        for y in ast.walk(x):
+            if isinstance(y, ast.Attribute) and src(y) in ("self.p",
+                                                           "self.doflocs"):
+                names.add("mesh")
+            if isinstance(y, ast.Name) and y.id == point_par:
+                names.add("point")
+            elif isinstance(y, ast.Name) and y.id in defs and \
+                    y.id not in seen:
+                names |= resolve(defs[y.id], seen + (y.id,))
+        return names
+    floors = [b for b in ast.walk(nn.node) if isinstance(b, ast.BinOp)
+              and isinstance(b.op, ast.Mult)
+              and any(isinstance(y, ast.Attribute) and y.attr == "eps"
+                      for y in ast.walk(b))]
+    outer = [b for b in floors if not any(
+        b is not c and b in list(ast.walk(c)) for c in floors)]
+    cons = "Mesh.normalize_nodes:point-predicate:round-off-of-the-point"
+    for b in outer:
+        src_ = resolve(b)
+        if "mesh" in src_ or "point" not in src_:
+            rep.fail(R4, nn.path, "Mesh.normalize_nodes", cons,
+                     f"the round-off floor '{src(b)[:70]}' is not that of "
+                     f"the named point: on MeshLine([0, geomspace(1e-16, 1, "
+                     f"33)]) the floor of the largest coordinate exceeds the "
+                     f"cells at the origin and nodes=(0.,) selects four "
+                     f"vertices", b.lineno)
+            break
+    else:
+        rep.ok(R4, cons, f"{len(outer)} round-off floor(s) taken from the "
+               f"coordinates of the named point")
 
 
 def run(model: Model, rep, tier: str) -> None:
@@ -1269,6 +1347,17 @@ _D = "skfem/assembly/dofs.py"
 _AB = "skfem/assembly/basis/abstract_basis.py"
 _M = "skfem/mesh/mesh.py"
 MUTANTS = [
+    ("tags given as lists or tuples are stored as given",
+     (_M, "        if not isinstance(ix, ndarray):\n            ix = "
+      "np.asarray(ix)\n            if ix.size == 0:\n                ix = "
+      "ix.astype(np.int32)\n        if ix.dtype == bool:",
+      "        if isinstance(ix, ndarray) and ix.dtype == bool:"), "C07-R4"),
+    ("vertex by coordinates: round-off floor of the largest coordinate of "
+     "the mesh",
+     (_M, "                             4 * np.finfo(np.float64).eps * "
+      "np.abs(x0))",
+      "                             4 * np.finfo(np.float64).eps * "
+      "np.abs(self.p).max())"), "C07-R4"),
     ("with_boundaries as a loop storing a Boolean mask as given",
      (_M, '        return replace(\n            self,\n            _boundaries={\n                **({} if self._boundaries is None else self._boundaries),\n                **{name: self.facets_satisfying(test_or_set, boundaries_only)\n                   if callable(test_or_set)\n                   else self._mask_to_indices(test_or_set)\n                   for name, test_or_set in boundaries.items()}\n            },\n        )',
       '        tagged = dict({} if self._boundaries is None else self._boundaries)\n        for name, test_or_set in boundaries.items():\n            if callable(test_or_set):\n                tagged[name] = self.facets_satisfying(test_or_set,\n                                                      boundaries_only)\n            else:\n                tagged[name] = test_or_set\n        return replace(self, _boundaries=tagged)'), "C07-R4"),
@@ -1303,9 +1392,9 @@ MUTANTS = [
      (_M, "        atol = self._shortest_edge() / 1e2\n",
       "        atol = np.min(self.params()) / 1e2\n"), "C07-R4"),
     ("vertex named by coordinates matched with an absolute tolerance",
-     (_M, "            tol = max(1e-6 * self._shortest_edge(),\n"
-      "                      8 * np.finfo(np.float64).eps * "
-      "np.abs(self.p).max())\n",
+     (_M, "            tol = np.maximum(1e-6 * self._shortest_edge(),\n"
+      "                             4 * np.finfo(np.float64).eps * "
+      "np.abs(x0))\n",
       "            tol = 1e-12\n"), "C07-R4"),
     ("shortest edge measured from the origin",
      (_M, "        return np.min(np.linalg.norm(np.diff(self.p[:, ed], "
@@ -1445,6 +1534,12 @@ MUTANTS = [
       "dtype=np.int32)"), "C07-R4"),
 ]
 TWINS = [
+    ("vertex by coordinates: round-off floor written with np.spacing-like "
+     "factor 8",
+     (_M, "                             4 * np.finfo(np.float64).eps * "
+      "np.abs(x0))",
+      "                             8 * np.finfo(float).eps * "
+      "np.abs(x0))")),
     ("with_boundaries written as a loop with an if statement",
      (_M, '        return replace(\n            self,\n            _boundaries={\n                **({} if self._boundaries is None else self._boundaries),\n                **{name: self.facets_satisfying(test_or_set, boundaries_only)\n                   if callable(test_or_set)\n                   else self._mask_to_indices(test_or_set)\n                   for name, test_or_set in boundaries.items()}\n            },\n        )',
       '        tagged = dict({} if self._boundaries is None else self._boundaries)\n        for name, test_or_set in boundaries.items():\n            if callable(test_or_set):\n                tagged[name] = self.facets_satisfying(test_or_set,\n                                                      boundaries_only)\n            else:\n                tagged[name] = self._mask_to_indices(test_or_set)\n        return replace(self, _boundaries=tagged)')),
